@@ -2,7 +2,7 @@
    documented defects are rejected by constructor and validator alike. *)
 From Model Require Import Bytes Prim Tables Cert KAC Mapping Sig LS Validate.
 From Gen Require Import Tables Validators.
-From Proofs Require Import BytesLemmas CtorProofs MappingProofs CtorRT ValidatorTie ElsChain.
+From Proofs Require Import BytesLemmas CtorProofs MappingProofs CtorRT ValidatorTie ElsChain LS2Layers Retail.
 Open Scope Z_scope.
 
 Theorem C14_signature : forall d t s, new_signature_from_bytes d t = Ok s ->
@@ -160,3 +160,40 @@ Theorem C14_els_constructor_chain : forall st key pub e f off inner sg r,
   els_validate l = true /\ read_encrypted_lease_set (els_bytes l ++ r) = Ok (l, r).
 Proof. exact els_ctor_chain. Qed.
 Print Assumptions C14_els_constructor_chain.
+
+(* ---- LeaseSet2: the three layers do not describe the same set, and this is the difference ---- *)
+(* what the parser guarantees of a value it returns: key count 1..16, lease count <= 16, the
+   offline flag consistent with the offline block, every key's declared length equal to its
+   actual length and its type code a 16-bit number *)
+Theorem C14_ls2_parser_guarantees : forall x l r, wf x -> read_lease_set2 x = Ok (l, r) ->
+  (1 <= length (l2_keys l) <= 16)%nat /\ (length (l2_leases l) <= 16)%nat /\
+  has_offline (l2_flags l) = (match l2_offline l with Some _ => true | None => false end) /\
+  Forall key_wellformed (l2_keys l).
+Proof. exact read_lease_set2_layers. Qed.
+(* what (the regenerated) Validate adds on a parsed value: exactly the key-length-for-type rule
+   and the reserved flag bits *)
+Theorem C14_ls2_validate_of_parsed : forall x l r, wf x -> read_lease_set2 x = Ok (l, r) ->
+  ls2_validate l = forallb key_length_matches_type (l2_keys l) && (Z.land (Z.of_N (l2_flags l)) 65528 =? 0).
+Proof. exact ls2_validate_of_parsed. Qed.
+Print Assumptions C14_ls2_validate_of_parsed.
+(* and the parser does return values that Validate (and the constructor) refuse: "parser accepts
+   => Validate accepts" is false of the faithful model; witnesses *)
+Theorem C14_ls2_parser_accepts_invalid_key_length_refuted :
+  match read_lease_set2 ls2_key31 with Ok (l, []) => ls2_validate l = false | _ => False end.
+Proof. exact parser_accepts_key_length_validate_rejects. Qed.
+Theorem C14_ls2_parser_accepts_reserved_flag_refuted :
+  match read_lease_set2 ls2_reserved_flag with Ok (l, []) => ls2_validate l = false | _ => False end.
+Proof. exact parser_accepts_reserved_flag_validate_rejects. Qed.
+
+(* a parsed LeaseSet2 whose serialisation reproduces the consumed bytes (no mapping slack, D2)
+   and is not shorter than the reader's whole-input minimum (D6): Bytes() parses back, with an
+   empty remainder, to a value with the same serialisation *)
+Theorem C14_ls2_parsed_value_parses_back : forall x l r b, wf x -> read_lease_set2 x = Ok (l, r) ->
+  lease_set2_bytes l = Ok b -> b ++ r = x -> Gen.Consts.c_lease_set2_LEASESET2_MIN_SIZE <= Z.of_nat (length b) ->
+  exists l', read_lease_set2 b = Ok (l', []) /\ lease_set2_bytes l' = Ok b.
+Proof. exact read_lease_set2_reparse. Qed.
+Print Assumptions C14_ls2_parsed_value_parses_back.
+Theorem C14_meta_parsed_value_parses_back : forall x l r b, wf x -> read_meta_lease_set x = Ok (l, r) ->
+  meta_lease_set_bytes l = Ok b -> b ++ r = x -> Gen.Consts.c_meta_leaseset_META_LEASESET_MIN_SIZE <= Z.of_nat (length b) ->
+  exists l', read_meta_lease_set b = Ok (l', []) /\ meta_lease_set_bytes l' = Ok b.
+Proof. exact read_meta_lease_set_reparse. Qed.
